@@ -50,7 +50,7 @@ var c17MultiPrime = sync.OnceValue(func() *rsa.PrivateKey {
 
 func c17Keys() []c17Key {
 	var ks []c17Key
-	for _, n := range []string{"rsa1024", "rsa2047", "rsa2048", "rsa3072", "rsa4096"} {
+	for _, n := range []string{"rsa1024", "rsa2047", "rsa2048", "rsa2049", "rsa2055", "rsa3072", "rsa4096"} {
 		k := fixtures.RSA(n)
 		ks = append(ks, c17Key{Name: n, Pub: &k.PublicKey, Priv: k, Family: "rsa", RSAOK: k.N.BitLen() >= 2048})
 	}
